@@ -15,6 +15,20 @@ def parse_span(sp):
     return (m.group(1), int(m.group(2)))
 
 
+class FE(str):
+    """Field-path element that knows which enum variant the field belongs to."""
+    __slots__ = ("hint",)
+
+    def __new__(cls, name, hint=None):
+        o = str.__new__(cls, name)
+        o.hint = hint
+        return o
+
+
+def hint_of(e):
+    return getattr(e, "hint", None)
+
+
 class Place:
     __slots__ = ("local", "proj")
 
@@ -27,11 +41,16 @@ class Place:
         return not self.proj
 
     def fields(self):
-        """Field path with derefs/downcasts stripped: list of field names/indices."""
+        """Field path with derefs/downcasts stripped: list of field names/indices.  An element that was reached
+        through a downcast (`(x as Ok).0`) remembers the variant as `.hint` (it still compares as a plain str)."""
         out = []
+        dc = None
         for p in self.proj:
-            if isinstance(p, dict) and "f" in p:
-                out.append(p["n"])
+            if isinstance(p, dict) and "dc" in p:
+                dc = p["dc"]
+            elif isinstance(p, dict) and "f" in p:
+                out.append(FE(p["n"], dc) if dc is not None else p["n"])
+                dc = None
         return out
 
     def key(self):
@@ -324,10 +343,12 @@ class Facts:
         with open(path) as fh:
             text = fh.read()
         self.renames = {}
+        self.inlined = {}
         if normalise:
             from .anchors import normalise as _norm
-            text, self.renames = _norm(text)
-        j = json.loads(text)
+            j, self.renames, self.inlined = _norm(text)
+        else:
+            j = json.loads(text)
         self.raw = j
         self.nonce = j["nonce"]
         self.bodies = []
